@@ -9,3 +9,14 @@ CLAIMS["C01"] = ("exploration",
     "Universal document strategy (tables, multi-section, figures; all optional components, header modes, placements, strategies, attribute shapes, half-point sizes) plus an exhaustive skeleton sweep; oracle = encode succeeds (ValueError only for reference-non-contiguous group_by) and the independent reader finds one balanced {\\rtf1 group, no lexical error, #cellx==#cell per row with positive non-decreasing boundaries. " + _EXPL,
     _READER,
     "property-based testing / fuzzing: Hypothesis universal document generator + skeleton enumeration, validity predicate from an independent RTF lexer/reader")
+CLAIMS["C06"] = ("exploration",
+    "Exhaustive placement product (27 placements x footnote/source forms x pageby_header x strategy x header mode x 1/2/3/5+ pages; quick = seeded slice) plus Hypothesis-generated tables and figure documents with random geometry; validity predicate over the parsed per-page role sequence, restated geometry and \\header/\\footer counts. " + _EXPL,
+    _READER, "property-based testing: exhaustive configuration product + Hypothesis documents, per-page validity predicate on independently parsed output")
+CLAIMS["C19"] = ("exploration",
+    "Exhaustive enumeration of the position of an illegal value inside scalar / flat / per-row / nested forms (shapes up to 3x3) for every validated field of every component class, plus Hypothesis-generated illegal values, shapes and fillers; oracle = ValueError (FileNotFoundError for a missing figure) and the legal control constructs. " + _EXPL,
+    "Legal value sets are taken from the documentation/constants of the pinned tree.",
+    "property-based testing: exhaustive position enumeration + Hypothesis illegal values, exception-type oracle with legal control")
+CLAIMS["C20"] = ("exploration",
+    "Hypothesis-generated (text, appended char, font, two sizes, dpi, unsupported font/unit) cases plus an exhaustive single-character x font sweep; algebraic and metamorphic relations from the statement with stated tolerances. " + _EXPL,
+    "Frozen font-number -> name table; tolerances 1e-9 relative (one float multiplication) and 1 % (statement).",
+    "property-based testing: Hypothesis inputs, algebraic/metamorphic relations as oracle")
